@@ -242,9 +242,9 @@ def decorator(ctx, p):
     ok = False
     det = ""
     for r in plain:
-        br = wire.enclosing_branches(w, r)
-        det = f"{norm_text(r.value)[:80]} under {[(norm_text(i.test), t) for i, t in br]}"
-        if len(br) == 1 and br[0][1] and norm_text(br[0][0].test) == "not perform_over_sampling" and norm_text(wire.kw(r.value).get("grid")) == "grid" and norm_text(wire.kw(r.value).get("obj")) == "obj":
+        pc = wire.path_conds(w, r)
+        det = f"{norm_text(r.value)[:80]} under {pc}"
+        if ("perform_over_sampling", False) in pc and all(t[0] in ("perform_over_sampling", "isinstance(grid, Grid2DOverSampled)") for t in pc) and norm_text(wire.kw(r.value).get("grid")) == "grid" and norm_text(wire.kw(r.value).get("obj")) == "obj":
             ok = True
     ctx.ob(rule, w.key + ":plain", ok, where=w, node=plain[0] if plain else w.node, construct=det, message="when over-sampling is not performed the function must be evaluated plainly on the input grid")
     # perform flag computed by perform_over_sampling_from(grid=grid, ...)
@@ -345,7 +345,7 @@ def level_advance(ctx, p):
     m = p.cls("autoarray.operators.over_sampling.iterate:OverSamplerIterate").lookup("array_via_func_from")
     if m is None:
         raise AnchorMissing("OverSamplerIterate.array_via_func_from")
-    loops = [n for n in m.node.body if isinstance(n, ast.For)]
+    loops = [n for n in wire.main_line(m) if isinstance(n, ast.For)]
     if len(loops) != 1:
         ctx.ob(rule, m.key + ":levels", None, message=f"expected one loop over the sub-size schedule, found {len(loops)}")
         return
@@ -380,9 +380,9 @@ def level_advance(ctx, p):
     ctx.ob(rule, m.key + ":level-inputs", ok, where=m, node=calls["array_at_sub_size_from"], construct=f"array_at_sub_size_from{k3}; iterated_array_jit_from{k2}",
            message="each level must be evaluated on the still-unresolved mask at this iteration's sub size and its array used both for the threshold test and the fill")
     # the first 'previous level' is the plain evaluation on the unmasked grid; the last level fills the remainder
-    first = [(t, v) for t, v, n in [(norm_text(n.targets[0]), norm_text(n.value), n) for n in m.node.body if isinstance(n, ast.Assign) and len(n.targets) == 1] if t == lower_a]
+    first = [(t, v) for t, v, n in [(norm_text(n.targets[0]), norm_text(n.value), n) for n in wire.main_line(m) if isinstance(n, ast.Assign) and len(n.targets) == 1] if t == lower_a]
     okf = len(first) >= 1 and first[0][1].startswith("func(obj, unmasked_grid") or (len(first) >= 2 and "Array2D(values=" + lower_a in first[1][1])
-    tail = [n for n in m.node.body if isinstance(n, ast.Assign) and n.lineno > loop.end_lineno and isinstance(n.value, ast.Call) and norm_text(n.value.func).endswith("array_at_sub_size_from")]
+    tail = [n for n in wire.main_line(m) if isinstance(n, ast.Assign) and n.lineno > loop.end_lineno and isinstance(n.value, ast.Call) and norm_text(n.value.func).endswith("array_at_sub_size_from")]
     okl = len(tail) == 1 and norm_text(wire.kw(tail[0].value).get("sub_size")) == "self.sub_steps[-1]" and norm_text(wire.kw(tail[0].value).get("mask")) == lower_m
     ctx.ob(rule, m.key + ":first-last", bool(okf) and okl, where=m, node=tail[0] if tail else m.node, construct=f"first {first[:2]}; last {norm_text(tail[0].value)[:120] if tail else None}",
            message="the schedule must start from the sub-size-1 evaluation and end by filling the still-unresolved pixels at the last sub size")
